@@ -447,6 +447,59 @@ theorem fits_unless_known_cause_wire (cfg : Config) (info : Info) (env : Env) (d
     serialize r (reqOf dec ks data fv encw).len ≠ .err :=
   fits_unless_known_cause cfg info env _ h ⟨hacc, hstable, hnonce, reqFacts_reqOf dec ks data fv encw hudp⟩
 
+/-- `accounted` is a theorem about the parser model once `encw` is computed from the bytes (`reqOfB`, `encwOf`):
+    for every datagram that parsed (possibly failing authentication only), header + the fields it was parsed into
+    + the framed authenticator fields fit into the datagram. -/
+theorem accounted_reqOfB (dec : Wire.Dec) (ks : Wire.KeySet) (data : List UInt8) (fv : Nat)
+    (hp : (reqOfB dec ks data fv).parse = .ok ∨ (reqOfB dec ks data fv).parse = .dec) :
+    48 + wireSum ((reqOfB dec ks data fv).untrusted ++ (reqOfB dec ks data fv).auth)
+      + (reqOfB dec ks data fv).encw ≤ (reqOfB dec ks data fv).len := by
+  have hws : ∀ (p : Wire.Packet), wireSum (p.ef.untrusted.map fieldOf ++ p.ef.authenticated.map fieldOf)
+      = ServerParse.fwSum p.ef.untrusted + ServerParse.fwSum p.ef.authenticated := by
+    intro p
+    simp [wireSum, ServerParse.fwSum, List.map_append, List.sum_append, Function.comp_def]
+    rfl
+  unfold reqOfB reqOf at hp ⊢
+  cases hpp : Wire.parse dec (.keyset ks) data with
+  | ok p cookie =>
+    have hr : Wire.parseR dec (.keyset ks) data = .ok (p, cookie, true) := by
+      unfold Wire.parse at hpp
+      split at hpp <;> first | (cases hpp; done) | (cases hpp; assumption)
+    have := ServerParse.parseR_account hr
+    simp only [reqOfPacket, hws]
+    omega
+  | decryptErr p =>
+    have hr : ∃ c, Wire.parseR dec (.keyset ks) data = .ok (p, c, false) := by
+      unfold Wire.parse at hpp
+      split at hpp <;> first | (cases hpp; done) | (cases hpp; exact ⟨_, by assumption⟩)
+    obtain ⟨c, hr⟩ := hr
+    have := ServerParse.parseR_account hr
+    simp only [reqOfPacket, hws]
+    omega
+  | err e => simp [hpp, reqNone] at hp
+  | panic => simp [hpp, reqNone] at hp
+  | fuel => simp [hpp, reqNone] at hp
+
+/-- **Byte-level form with everything computed from the bytes.**  For every datagram of at most 65535 octets,
+    decryption oracle, key set, configuration and synchronisation state: if the policy decides to answer the
+    request record derived from the bytes (`reqOfB`: parser model, `encw` measured by the field streamer), the
+    answer fits a buffer as long as the datagram unless a known cause applies — `stable` fails (F-C17a) or
+    `nonceLong` fails (F-C17b/c).  The size accounting is no longer a hypothesis. -/
+theorem fits_unless_known_cause_bytes (cfg : Config) (info : Info) (env : Env) (dec : Wire.Dec) (ks : Wire.KeySet)
+    (data : List UInt8) (fv : Nat) (hudp : data.length ≤ 65535) {a reason v nts r}
+    (h : handleInner cfg info env (reqOfB dec ks data fv) = .answer a reason v nts r)
+    (hstable : untrustedSize (evOf r.hdr.version) r.untrusted ≤ ownSum r.untrusted ∧ authSize r.auth ≤ ownSum r.auth)
+    (hnonce : (reqOfB dec ks data fv).cookie.isSome = true →
+              encOverhead + wireSum (reqOfB dec ks data fv).enc ≤ (reqOfB dec ks data fv).encw) :
+    serialize r (reqOfB dec ks data fv).len ≠ .err := by
+  have hparse : (reqOfB dec ks data fv).parse = .ok ∨ (reqOfB dec ks data fv).parse = .dec := by
+    obtain ⟨_, _, _, _, _, _, hsrc⟩ := handleInner_answer h
+    rcases hsrc with ⟨hp, _⟩ | ⟨hp, _⟩
+    · exact .inl hp
+    · exact .inr hp
+  exact fits_unless_known_cause_wire cfg info env dec ks data fv (encwOf data) hudp h
+    (accounted_reqOfB dec ks data fv hparse) hstable hnonce
+
 /-- An answer that was decided on is either sent, or its loss is recorded as exactly one
     "internal error / ignore" entry (or the serialiser panicked, excluded by C22 under its assumptions). -/
 theorem answer_or_internal (cfg : Config) (info : Info) (env : Env) (req : Req) {a reason v nts r}
@@ -504,4 +557,6 @@ end NtpVerif.C17
 #print axioms NtpVerif.C17.reqOf_draft_facts
 #print axioms NtpVerif.C17.reqFacts_reqOf
 #print axioms NtpVerif.C17.fits_unless_known_cause_wire
+#print axioms NtpVerif.C17.accounted_reqOfB
+#print axioms NtpVerif.C17.fits_unless_known_cause_bytes
 #print axioms NtpVerif.C17.answer_or_internal
